@@ -18,6 +18,7 @@ def split_cases(text):
 
 def run(ctx):
     findings = load_findings('C18')
+    translate(ctx, ['consts'])
     lean_props(ctx)
     if not cargo_repo_bins(ctx, ('sccache-dist',), FEATURES): return
     n = 1500 if ctx.quick() else 40000
